@@ -187,9 +187,13 @@ func checkC10(c *ctx) {
 		c.Violation("C10 "+bad, false)
 		return
 	}
-	if bad := manyPostingsLists(c); bad != "" {
-		c.Violation("C10 "+bad, false)
-		return
+	// (three times: the race-instrumented sync.Pool of this binary drops a quarter of the objects put
+	// back, so a single pair of builds shares its builder only three times out of four)
+	for k := 0; k < 3; k++ {
+		if bad := manyPostingsLists(c); bad != "" {
+			c.Violation("C10 "+bad, false)
+			return
+		}
 	}
 	n := c.n(120, 3000)
 	for i := 0; i < n; i++ {
@@ -374,18 +378,18 @@ func checkC10(c *ctx) {
 
 // manyPostingsLists: two batches with more than 32768 postings lists each, of different shapes, built
 // one after the other on one P with the collector off (the second draws the first one's builder):
-// 40000 documents with nothing but _id, then 36000 documents with _id and one term of their own in
+// 33500 documents with nothing but _id, then 33000 documents with _id and one term of their own in
 // field f.  The second segment is checked against its batch by construction.
 func manyPostingsLists(c *ctx) string {
 	oldP := runtime.GOMAXPROCS(1)
 	defer runtime.GOMAXPROCS(oldP)
 	var b1, b2 zh.Batch
-	for d := 0; d < 40000; d++ {
+	for d := 0; d < 33500; d++ {
 		b1 = append(b1, zh.Doc{Fields: []zh.Field{zh.IDField(fmt.Sprintf("x%06d", d))}})
 	}
-	for d := 0; d < 36000; d++ {
+	for d := 0; d < 33000; d++ {
 		b2 = append(b2, zh.Doc{Fields: []zh.Field{zh.IDField(fmt.Sprintf("y%06d", d)),
-			{Name: "f", Len: 1, Toks: []zh.Tok{{Term: fmt.Sprintf("u%06d", 35999-d), Freq: 1}}}}})
+			{Name: "f", Len: 1, Toks: []zh.Tok{{Term: fmt.Sprintf("u%06d", 32999-d), Freq: 1}}}}})
 	}
 	bad := ""
 	func() {
@@ -405,7 +409,7 @@ func manyPostingsLists(c *ctx) string {
 			bad = "second build failed: " + err.Error()
 			return
 		}
-		if s2.Count() != 36000 {
+		if s2.Count() != 33000 {
 			bad = fmt.Sprintf("second segment counts %d documents", s2.Count())
 			return
 		}
@@ -419,11 +423,11 @@ func manyPostingsLists(c *ctx) string {
 			bad = "Dictionary(_id): " + err.Error()
 			return
 		}
-		for d := 0; d < 36000; d += 1 + d%7 {
+		for d := 0; d < 33000; d += 1 + d%7 {
 			for _, q := range []struct {
 				dict segment.TermDictionary
 				term string
-			}{{dict, fmt.Sprintf("u%06d", 35999-d)}, {idd, fmt.Sprintf("y%06d", d)}} {
+			}{{dict, fmt.Sprintf("u%06d", 32999-d)}, {idd, fmt.Sprintf("y%06d", d)}} {
 				pl, err := q.dict.PostingsList([]byte(q.term), nil, nil)
 				if err != nil {
 					bad = "PostingsList: " + err.Error()
@@ -443,7 +447,7 @@ func manyPostingsLists(c *ctx) string {
 	c.Case("many-postings-lists", true)
 	c.Count("histories_with_more_than_32768_postings_lists")
 	if bad != "" {
-		return "a batch of 40000 documents (40000 postings lists) followed, on the same pooled builder, by a batch of 36000 documents with 72000 postings lists: " + bad
+		return "a batch of 33500 documents (33500 postings lists) followed, on the same pooled builder, by a batch of 33000 documents with 66000 postings lists: " + bad
 	}
 	return ""
 }
